@@ -260,7 +260,19 @@ func CheckRedef(props map[string]bool, s Scenario, o Outcome, pure bool) []Findi
 			}
 		}
 	}
-	if pure && r.RedefKey != r.DirectKey {
+	// Differential clause. When two of the values in play (original inputs and the
+	// new ones) share a type, a type-only field of the redefined function may
+	// legitimately be fed by either, so the wrapper need not pass the values through
+	// one-to-one; the comparison is made where the binding is unambiguous.
+	seenT := map[int]bool{}
+	unambiguous := true
+	for _, in := range s2.Inputs {
+		if seenT[in.L.T] {
+			unambiguous = false
+		}
+		seenT[in.L.T] = true
+	}
+	if pure && unambiguous && r.RedefKey != r.DirectKey {
 		add("C08", "differs", "redefined call observed %q but the original function with the same arguments observes %q", r.RedefKey, r.DirectKey)
 	}
 	return fs
